@@ -1,4 +1,5 @@
 import VaxisModel.Lemmas.Startup
+import VaxisModel.Gen.Startup
 
 /-!
 # C07 (capability detection) — "the capabilities Vaxis reports are exactly those the replies established"
@@ -187,5 +188,99 @@ example :
          st.sys.vs.caps == ({ synchronizedUpdate := true, osc11 := true, sixels := true, noZWJ := true, explicitWidth := true } : Caps) &&
          st.sys.vs.caps == specCaps {} ((inputsOf exLabels).take 8) (st.probeGot.map (·.2))
      | none => false) = true := by decide +kernel
+
+/-! ## Tie to the source (`Gen/Caps.lean`, `Gen/Startup.lean`, regenerated on every run) -/
+
+/-- The event types of the loop's type switch, in source order, as model events. -/
+def loopEvents : List (String × Event) :=
+  [("primaryDeviceAttribute", .internal .primaryDeviceAttribute), ("capabilitySixel", .internal .capabilitySixel),
+   ("capabilityOsc4", .internal .capabilityOsc4), ("capabilityOsc10", .internal .capabilityOsc10),
+   ("capabilityOsc11", .internal .capabilityOsc11), ("synchronizedUpdates", .internal .synchronizedUpdates),
+   ("unicodeCoreCap", .internal .unicodeCoreCap), ("notifyColorChange", .internal .notifyColorChange),
+   ("kittyKeyboard", .internal .kittyKeyboard), ("styledUnderlines", .internal .styledUnderlines),
+   ("truecolor", .internal .truecolor), ("kittyGraphics", .internal .kittyGraphics), ("textAreaPix", .internal .textAreaPix),
+   ("textAreaChar", .internal .textAreaChar), ("appID", .appID [120]), ("terminalID", .terminalID [120]),
+   ("inBandResizeEvents", .internal .inBandResizeEvents)]
+
+/-- What the model's loop arm does for an event: capability fields set, whether the loop ends,
+whether `appIDLast` / `termID` are stored, whether `DisableKittyKeyboard` suppresses it. -/
+def armOf (e : Event) : List String × List String :=
+  match collectEv {} {} [] [] e with
+  | none => ([], ["break outer"])
+  | some (c, tid, aid) =>
+    (Caps.diff {} c,
+     (if (collectEv { disableKitty := true } {} [] [] e).map (·.1) == some {} && c != {} then ["if opts.DisableKittyKeyboard", "continue"] else []) ++
+     (if aid != [] then ["vx.appIDLast = ev"] else []) ++ (if tid != [] then ["vx.termID = ev"] else []))
+
+/-- The type switch of `New`'s loop is the one the model transcribes: same event types in the same
+order, each setting exactly the capability fields `collectEv` sets, with the same extra statements
+(`break outer`, the `DisableKittyKeyboard` guard, `appIDLast`/`termID`); the only other statements
+are the two `graphicsProtocol` upgrades. -/
+theorem facts_loop :
+    (Gen.Caps.collect.map fun x => (x.1, x.2.1, x.2.2.filter fun s =>
+        !["if vx.graphicsProtocol < sixelGraphics", "vx.graphicsProtocol = sixelGraphics", "if vx.graphicsProtocol < kitty",
+          "vx.graphicsProtocol = kitty"].contains s))
+      = loopEvents.map (fun x => (x.1, (armOf x.2).1, (armOf x.2).2)) ∧
+    Gen.Startup.loopLabel = "outer" ∧ Gen.Startup.beforeLoop = "vx.sendQueries()" ∧
+    Gen.Startup.loopSelect = [("<-ctx.Done()", ["log", "break outer"]), ("ev := <-vx.queue", ["switch ev := ev.(type)"])] := by
+  decide +kernel
+
+/-- After the loop `New` runs `enterAltScreen`, `enableModes`, `setupSignals`, `applyQuirks` — in
+this order, nothing else before `applyQuirks`. -/
+theorem facts_after_loop : Gen.Startup.afterLoop =
+    ["vx.enterAltScreen()", "vx.enableModes()", "if !opts.NoSignals { vx.setupSignals() }", "vx.applyQuirks()"] := by decide +kernel
+
+/-- The explicit-width probe and the `COLORTERM` shortcut in `sendQueries`. -/
+theorem facts_probe :
+    Gen.Startup.probeCall = "_, col := vx.CursorPosition()" ∧ Gen.Startup.probeCond = "col == 1" ∧
+    Gen.Startup.probeAssigns = ["explicitWidth = true"] ∧
+    Gen.Startup.colorterm = [("\"truecolor\",\"24bit\"", ["vx.PostEvent(truecolor{})"])] := by decide +kernel
+
+/-- "field = value" assignments a capability transformer performs (observed on the all-false and
+the all-true record). -/
+def capsAll : Caps :=
+  { synchronizedUpdate := true, unicodeCore := true, noZWJ := true, rgb := true, kittyGraphics := true, kittyKeyboard := true,
+    styledUnderlines := true, sixels := true, colorThemeUpdates := true, reportSizeChars := true, reportSizePixels := true,
+    osc4 := true, osc10 := true, osc11 := true, osc176 := true, inBandResize := true, explicitWidth := true }
+
+def assignsOf (f : Caps → Caps) : List String :=
+  (Caps.fieldNames.zip ((f {}).toList.zip (f capsAll).toList)).filterMap fun (n, (a, b)) =>
+    if a && b then some (n ++ " = true") else if !a && !b then some (n ++ " = false") else none
+
+def sameSet (a b : List String) : Bool := a.all (b.contains ·) && b.all (a.contains ·)
+
+/-- `applyQuirks` is the one the model transcribes: the two terminal-id arms and the
+environment-guarded blocks, in order, assign exactly the capability fields the model assigns. -/
+theorem facts_quirks :
+    Gen.Startup.quirksFirst = "id := string(vx.termID)" ∧
+    Gen.Startup.quirksSwitch.map (·.1) = ["strings.HasPrefix(id, \"kitty\")", "id == \"tmux 3.4\""] ∧
+    (((Gen.Startup.quirksSwitch.map (·.2)).zip
+      [assignsOf (applyQuirks {} (ascii "kitty 0.31")), assignsOf (applyQuirks {} (ascii "tmux 3.4"))]).all (fun x => sameSet x.1 x.2)) = true ∧
+    Gen.Startup.quirksEnv.map (·.1) = ["os.Getenv(\"ASCIINEMA_REC\") != \"\"", "os.Getenv(\"VAXIS_FORCE_LEGACY_SGR\") != \"\"",
+      "os.Getenv(\"VAXIS_FORCE_WCWIDTH\") != \"\"", "os.Getenv(\"VAXIS_FORCE_UNICODE\") != \"\"",
+      "os.Getenv(\"VAXIS_FORCE_NOZWJ\") != \"\"", "os.Getenv(\"VAXIS_DISABLE_NOZWJ\") != \"\"",
+      "os.Getenv(\"VAXIS_FORCE_XTWINOPS\") != \"\""] ∧
+    (((Gen.Startup.quirksEnv.map (·.2)).zip
+      [[], [], assignsOf (applyQuirks { forceWcwidth := true } []), assignsOf (applyQuirks { forceUnicode := true } []),
+       assignsOf (applyQuirks { forceNoZWJ := true } []), assignsOf (applyQuirks { disableNoZWJ := true } []), []]).all
+      (fun x => sameSet x.1 x.2)) = true := by
+  decide +kernel
+
+/-- Nothing else in the package writes the capability record: the loop of `New` (one field per
+arm, to `true`), the probe in `sendQueries`, and `applyQuirks`. -/
+theorem facts_caps_writes :
+    Gen.Startup.capsWrites.all (fun w =>
+      (w.startsWith "vaxis.go:New:caps." && w.endsWith " = true") || w == "vaxis.go:sendQueries:caps.explicitWidth = true" ||
+      w.startsWith "quirks.go:applyQuirks:caps.") = true ∧
+    (Gen.Startup.capsWrites.filter (·.startsWith "vaxis.go:New:")).length = 15 ∧
+    (Gen.Startup.capsWrites.filter (·.startsWith "quirks.go:")).length = 8 := by decide +kernel
+
+/-- The `Can*` accessors read the fields `canOf` reads. -/
+theorem facts_can : Gen.Startup.canAccessors =
+    [("CanRGB", "vx.caps.rgb"), ("CanKittyGraphics", "vx.caps.kittyGraphics"), ("CanSixel", "vx.caps.sixels"),
+     ("CanReportColor", "vx.caps.osc4"), ("CanReportForegroundColor", "vx.caps.osc10"),
+     ("CanReportBackgroundColor", "vx.caps.osc11"), ("CanDisplayGraphics", "vx.caps.sixels || vx.caps.kittyGraphics"),
+     ("CanSetAppID", "vx.caps.osc176"), ("CanUnicodeCore", "vx.caps.unicodeCore"), ("CanExplicitWidth", "vx.caps.explicitWidth")] := by
+  decide +kernel
 
 end VaxisModel.Props.C07Caps
